@@ -29,7 +29,7 @@ import (
 
 type Cfg struct {
 	SenderServer bool `json:"sender_server"`
-	Comp         int  `json:"comp"` // 0 not negotiated; 1 negotiated (level Level); 2 negotiated but disabled by EnableWriteCompression(false)
+	Comp         int  `json:"comp"` // 0 not negotiated; 1 negotiated (level Level); 2 negotiated but disabled by EnableWriteCompression(false); 3 negotiated, no setter called (library defaults); 4 negotiated, SetCompressionLevel(Level) and EnableWriteCompression(false)
 	Level        int  `json:"level"`
 	W            int  `json:"w"`
 	RBuf         int  `json:"rbuf"`
@@ -40,12 +40,25 @@ type Msg struct {
 	Size   int    `json:"size"`
 	API    string `json:"api"` // WriteMessage, Write2 (NextWriter + two Writes split at Cut), Write1 (1-byte Writes), WriteString, ReadFrom, Prepared, JSON
 	Cut    int    `json:"cut"`
+	// settings changed on the sending Conn just before this message (levels.go): bit 1 SetCompressionLevel(PreLevel),
+	// bit 2 EnableWriteCompression(true), bit 4 EnableWriteCompression(false)
+	PreSet   int `json:"pre_set,omitempty"`
+	PreLevel int `json:"pre_level,omitempty"`
 }
 
 func (m Msg) String() string {
 	t := "text"
 	if m.Binary {
 		t = "bin"
+	}
+	if m.PreSet&1 != 0 {
+		t = fmt.Sprintf("level:=%d,", m.PreLevel) + t
+	}
+	if m.PreSet&2 != 0 {
+		t = "write-compression:=on," + t
+	}
+	if m.PreSet&4 != 0 {
+		t = "write-compression:=off," + t
 	}
 	if m.API == "Write2" {
 		return fmt.Sprintf("%s/%d/Write2@%d", t, m.Size, m.Cut)
@@ -147,14 +160,17 @@ func mkPair(cf Cfg) (snd, rcv *websocket.Conn, sc, rc *wsx.Conn) {
 	sc, rc = wsx.Pair()
 	snd = websocket.VerifNewConn(sc, cf.SenderServer, cf.RBuf, cf.W, cf.Comp != 0)
 	rcv = websocket.VerifNewConn(rc, !cf.SenderServer, cf.RBuf, cf.W, cf.Comp != 0)
-	if cf.Comp == 1 {
+	if cf.Comp == 1 || cf.Comp == 4 {
 		snd.SetCompressionLevel(cf.Level)
 	}
-	if cf.Comp == 2 {
+	if cf.Comp == 2 || cf.Comp == 4 {
 		snd.EnableWriteCompression(false)
 	}
 	return
 }
+
+// writeCompressionOn: the state of the sender's write compression at the start of the session.
+func (cf Cfg) writeCompressionOn() bool { return cf.Comp == 1 || cf.Comp == 3 }
 
 func connState(c *websocket.Conn) string {
 	var b strings.Builder
@@ -172,7 +188,7 @@ type Case struct {
 
 func classOf(cf Cfg, m Msg) string {
 	var f []string
-	if cf.Comp == 1 {
+	if cf.writeCompressionOn() {
 		f = append(f, "compressed")
 	}
 	if cf.SenderServer {
@@ -202,7 +218,31 @@ func runCase(c *hl.Ctx, cf Cfg, msgs []Msg) bool {
 	pn, pmsg, st := hl.TryStack(func() {
 		snd, rcv, sc, _ := mkPair(cf)
 		init := connState(snd) + "|" + connState(rcv)
+		// effective write-compression state when each message is written (negotiated, enabled, level)
+		on, level, levelKnown := cf.writeCompressionOn(), cf.Level, cf.Comp == 1 || cf.Comp == 4
+		enabledAt := make([]bool, len(msgs))
+		levelAt := make([]string, len(msgs))
 		for i, m := range msgs {
+			if m.PreSet&1 != 0 {
+				if err := snd.SetCompressionLevel(m.PreLevel); err != nil {
+					key, what = "send-error/set-compression-level", fmt.Sprintf("message %d %v: SetCompressionLevel(%d) returned %v; %s", i, m, m.PreLevel, err, desc)
+					return
+				}
+				level, levelKnown = m.PreLevel, true
+			}
+			if m.PreSet&2 != 0 {
+				snd.EnableWriteCompression(true)
+				on = cf.Comp != 0
+			}
+			if m.PreSet&4 != 0 {
+				snd.EnableWriteCompression(false)
+				on = false
+			}
+			enabledAt[i] = on
+			levelAt[i] = "level=default"
+			if levelKnown {
+				levelAt[i] = fmt.Sprintf("level=%d", level)
+			}
 			if err := sendOne(snd, m, i); err != nil {
 				key, what = "send-error/"+classOf(cf, m), fmt.Sprintf("message %d %v: write API returned %v; %s", i, m, err, desc)
 				return
@@ -219,6 +259,18 @@ func runCase(c *hl.Ctx, cf Cfg, msgs []Msg) bool {
 		}
 		evs, err := wsref.SenderCheck(frames, !cf.SenderServer, cf.Comp != 0)
 		if err != nil {
+			if strings.Contains(err.Error(), "message does not inflate") && len(evs) < len(msgs) {
+				// RSV1 announces a permessage-deflate payload (RFC 7692 7.2.1) but the payload is not one: name the
+				// role, write API and compression level of the message concerned
+				i := len(evs)
+				role := "client"
+				if cf.SenderServer {
+					role = "server"
+				}
+				key = "wire/rsv1-payload-not-deflate/" + role + "+" + msgs[i].API + "+" + levelAt[i]
+				what = fmt.Sprintf("message %d %v (%s, write compression on=%v): RSV1 is set on its first frame but the message payload is not a permessage-deflate stream (RFC 7692 7.2.1/7.2.2): %v; %s", i, msgs[i], levelAt[i], enabledAt[i], err, desc)
+				return
+			}
 			key, what = "wire/invalid/"+strings.SplitN(strings.SplitN(err.Error(), ": ", 2)[1], " ", 3)[0], "the wire violates RFC 6455/7692: "+err.Error()+"; "+desc
 			return
 		}
@@ -240,12 +292,17 @@ func runCase(c *hl.Ctx, cf Cfg, msgs []Msg) bool {
 				return
 			}
 		}
-		// compression really used / not used as configured
+		// compression not used where it is switched off: the k-th data message starts at the k-th text/binary frame
+		k := 0
 		for _, f := range frames {
-			if f.Rsv1 && cf.Comp != 1 {
-				key, what = "wire/unexpected-compression", "RSV1 set although write compression is off; "+desc
+			if f.Opcode != wsref.OpText && f.Opcode != wsref.OpBinary {
+				continue
+			}
+			if f.Rsv1 && k < len(msgs) && !enabledAt[k] {
+				key, what = "wire/unexpected-compression", fmt.Sprintf("message %d %v: RSV1 set although write compression is off for it; %s", k, msgs[k], desc)
 				return
 			}
+			k++
 		}
 		// (ii) the peer Conn reads the same sequence: ReadMessage for even i, NextReader with 1-byte reads for odd i
 		var keptPayloads [][]byte // every payload returned is compared again after all later reads
@@ -350,22 +407,37 @@ func msgsFor(cf Cfg, n int, thorough bool) []Msg {
 
 func configs(thorough bool) []Cfg {
 	var r []Cfg
-	levels := []int{-2, 1, 9}
-	if thorough {
-		levels = []int{-2, -1, 0, 1, 2, 3, 4, 5, 6, 7, 8, 9}
-	}
+	levels := levelAlphabet(thorough)
 	for _, srv := range []bool{true, false} {
 		for _, W := range []int{16, 125, 512, 4096} {
 			for _, rb := range []int{128, 4096} {
 				r = append(r, Cfg{SenderServer: srv, Comp: 0, W: W, RBuf: rb})
 				r = append(r, Cfg{SenderServer: srv, Comp: 2, W: W, RBuf: rb})
+				r = append(r, Cfg{SenderServer: srv, Comp: 3, W: W, RBuf: rb})
 				for _, l := range levels {
 					r = append(r, Cfg{SenderServer: srv, Comp: 1, Level: l, W: W, RBuf: rb})
+				}
+				// level set AND write compression switched off: the wire is uncompressed, so the receiver's buffer
+				// size adds nothing over Comp 2 (quick: one read buffer)
+				if thorough || rb == 128 {
+					for _, l := range levels {
+						r = append(r, Cfg{SenderServer: srv, Comp: 4, Level: l, W: W, RBuf: rb})
+					}
 				}
 			}
 		}
 	}
 	return r
+}
+
+// levelAlphabet: every flate mode the library accepts has its own code path in compress/flate and its own writer
+// pool in the library: -2 Huffman only, -1 flate's default, 0 stored blocks only, 1 fastest, 9 best; thorough: all
+// of -2..9.
+func levelAlphabet(thorough bool) []int {
+	if thorough {
+		return []int{-2, -1, 0, 1, 2, 3, 4, 5, 6, 7, 8, 9}
+	}
+	return []int{-2, -1, 0, 1, 9}
 }
 
 // branch classes for depth-2/3 sequences: one representative message per (size class, API family)
@@ -515,36 +587,80 @@ func headerValue(raw []byte, name string) string {
 	return ""
 }
 
-func handshakeSessions(c *hl.Ctx) {
+const levelUnset = 100 // SetCompressionLevel is not called
+
+type HCase struct {
+	Part       string `json:"part"`
+	ClientComp bool   `json:"client_compression"`
+	ServerComp bool   `json:"server_compression"`
+	Sub        string `json:"subprotocol"`
+	Size       int    `json:"size"`
+	Level      *int   `json:"level"` // absent in replay files written before the level dimension existed
+	ServerAPI  string `json:"server_api"`
+}
+
+func handshakeSessions(c *hl.Ctx) { handshakeFamily(c, nil) }
+
+// handshakeFamily enumerates the handshake sessions; with only != nil it evaluates just that one case (replay).
+func handshakeFamily(c *hl.Ctx, only *HCase) {
 	idx := 0
+	one := func(clientComp, serverComp bool, sub string, size, level int, srvAPI string) {
+		idx++
+		if only != nil {
+			if clientComp != only.ClientComp || serverComp != only.ServerComp || sub != only.Sub || size != only.Size || level != *only.Level || srvAPI != only.ServerAPI {
+				return
+			}
+		} else if !c.Mine(idx) {
+			return
+		}
+		c.Eval()
+		c.Add("traces_validated_against_impl", 1)
+		cs := map[string]interface{}{"part": "handshake", "client_compression": clientComp, "server_compression": serverComp, "subprotocol": sub, "size": size, "level": level, "server_api": srvAPI}
+		desc := fmt.Sprintf("Dial/Upgrade session: client offers compression=%v, server enables=%v, subprotocol %q, message size %d, server answers with %s", clientComp, serverComp, sub, size, srvAPI)
+		if level != levelUnset {
+			desc += fmt.Sprintf(", both ends call SetCompressionLevel(%d)", level)
+		}
+		key, what := oneHandshake(clientComp, serverComp, sub, size, level, srvAPI)
+		if key != "" {
+			if level != levelUnset && strings.HasSuffix(key, "-wire") {
+				// an invalid wire: the sender's settings are the distinguishing feature
+				key += fmt.Sprintf("/level=%d+%s", level, srvAPI)
+			}
+			c.Violation("handshake/"+key, what+"; "+desc, cs)
+		} else {
+			c.Nontrivial(desc)
+		}
+	}
+	sizes := []int{0, 1, 126, 5000, 70000}
 	for _, clientComp := range []bool{false, true} {
 		for _, serverComp := range []bool{false, true} {
 			for _, sub := range []string{"", "chat"} {
-				for _, size := range []int{0, 1, 126, 5000, 70000} {
-					idx++
-					if !c.Mine(idx) {
-						continue
-					}
-					c.Eval()
-					c.Add("traces_validated_against_impl", 1)
-					cs := map[string]interface{}{"part": "handshake", "client_compression": clientComp, "server_compression": serverComp, "subprotocol": sub, "size": size}
-					desc := fmt.Sprintf("Dial/Upgrade session: client offers compression=%v, server enables=%v, subprotocol %q, message size %d", clientComp, serverComp, sub, size)
-					key, what := oneHandshake(clientComp, serverComp, sub, size)
-					if key != "" {
-						c.Violation("handshake/"+key, what+"; "+desc, cs)
-					} else {
-						c.Nontrivial(desc)
-					}
+				for _, size := range sizes {
+					one(clientComp, serverComp, sub, size, levelUnset, "WriteMessage")
+				}
+			}
+		}
+	}
+	// negotiated sessions x compression level set on both ends x the API the server answers with
+	subs := []string{""}
+	if c.Thorough() {
+		subs = []string{"", "chat"}
+	}
+	for _, level := range levelAlphabet(c.Thorough()) {
+		for _, api := range []string{"WriteMessage", "NextWriter", "Prepared"} {
+			for _, sub := range subs {
+				for _, size := range sizes {
+					one(true, true, sub, size, level, api)
 				}
 			}
 		}
 	}
 	if c.Shard == 0 {
-		c.Sample(map[string]interface{}{"part": "handshake", "combinations": "client offer x server enable x subprotocol x 5 sizes"})
+		c.Sample(map[string]interface{}{"part": "handshake", "combinations": "client offer x server enable x subprotocol x 5 sizes; negotiated x level x server write API x 5 sizes"})
 	}
 }
 
-func oneHandshake(clientComp, serverComp bool, sub string, size int) (key, what string) {
+func oneHandshake(clientComp, serverComp bool, sub string, size, level int, srvAPI string) (key, what string) {
 	ln := &pipeListener{ch: make(chan net.Conn, 1), closed: make(chan struct{})}
 	var srvRec, cliRec *recConn
 	type srvResult struct {
@@ -553,6 +669,15 @@ func oneHandshake(clientComp, serverComp bool, sub string, size int) (key, what 
 		subp string
 	}
 	resCh := make(chan srvResult, 1)
+	var emu sync.Mutex
+	var firstKey, firstWhat string
+	note := func(k, w string) {
+		emu.Lock()
+		if firstKey == "" {
+			firstKey, firstWhat = k, w
+		}
+		emu.Unlock()
+	}
 	up := websocket.Upgrader{ReadBufferSize: 256, WriteBufferSize: 256, EnableCompression: serverComp, Subprotocols: []string{"chat", "other"}}
 	payload := hl.Pattern(size, 77)
 	srv := &http.Server{Handler: http.HandlerFunc(func(w http.ResponseWriter, r *http.Request) {
@@ -564,15 +689,43 @@ func oneHandshake(clientComp, serverComp bool, sub string, size int) (key, what 
 		defer ws.Close()
 		var res srvResult
 		res.subp = ws.Subprotocol()
+		if level != levelUnset {
+			if err := ws.SetCompressionLevel(level); err != nil {
+				note("server", err.Error())
+				resCh <- srvResult{err: err}
+				return
+			}
+		}
 		// read two messages from the client, answer each
 		for i := 0; i < 2; i++ {
 			mt, p, err := ws.ReadMessage()
 			if err != nil {
+				note("server", "server read: "+err.Error())
 				res.err = err
 				break
 			}
 			res.got = append(res.got, p)
-			if err := ws.WriteMessage(mt, p); err != nil {
+			switch srvAPI {
+			case "NextWriter":
+				var w io.WriteCloser
+				if w, err = ws.NextWriter(mt); err == nil {
+					if _, err = w.Write(p[:len(p)/2]); err == nil {
+						_, err = w.Write(p[len(p)/2:])
+					}
+					if err == nil {
+						err = w.Close()
+					}
+				}
+			case "Prepared":
+				var pm *websocket.PreparedMessage
+				if pm, err = websocket.NewPreparedMessage(mt, p); err == nil {
+					err = ws.WritePreparedMessage(pm)
+				}
+			default:
+				err = ws.WriteMessage(mt, p)
+			}
+			if err != nil {
+				note("server", "server write: "+err.Error())
 				res.err = err
 				break
 			}
@@ -614,14 +767,24 @@ func oneHandshake(clientComp, serverComp bool, sub string, size int) (key, what 
 	if ws.Subprotocol() != sub {
 		return "subprotocol", fmt.Sprintf("client subprotocol %q, want %q", ws.Subprotocol(), sub)
 	}
+	if level != levelUnset {
+		if err := ws.SetCompressionLevel(level); err != nil {
+			return "client-set-level", err.Error()
+		}
+	}
 	hsLenC := len(cliRec.bytes())
 	hsLenS := len(srvRec.bytes())
+	// net.Pipe is synchronous: once one party stops after an error the others would block for ever. The party that
+	// fails records its error (the first one recorded is the cause, later ones are consequences) and closes the
+	// client's pipe end, which ends every pending read and write on both ends.
 	done := make(chan error, 1)
 	var echoed [][]byte
 	go func() {
 		for i := 0; i < 2; i++ {
 			_, p, err := ws.ReadMessage()
 			if err != nil {
+				note("client-read", err.Error())
+				ws.UnderlyingConn().Close()
 				done <- err
 				return
 			}
@@ -629,23 +792,24 @@ func oneHandshake(clientComp, serverComp bool, sub string, size int) (key, what 
 		}
 		done <- nil
 	}()
-	if err := ws.WriteMessage(websocket.BinaryMessage, payload); err != nil {
-		return "client-write", err.Error()
+	werr := ws.WriteMessage(websocket.BinaryMessage, payload)
+	if werr == nil {
+		var w io.WriteCloser
+		if w, werr = ws.NextWriter(websocket.TextMessage); werr == nil {
+			if _, werr = w.Write(payload[:len(payload)/2]); werr == nil {
+				_, werr = w.Write(payload[len(payload)/2:])
+			}
+			if werr == nil {
+				werr = w.Close()
+			}
+		}
 	}
-	w, err := ws.NextWriter(websocket.TextMessage)
-	if err != nil {
-		return "client-write", err.Error()
-	}
-	w.Write(payload[:len(payload)/2])
-	w.Write(payload[len(payload)/2:])
-	if err := w.Close(); err != nil {
-		return "client-write", err.Error()
+	if werr != nil {
+		note("client-write", werr.Error())
+		ws.UnderlyingConn().Close()
 	}
 	select {
-	case err := <-done:
-		if err != nil {
-			return "client-read", err.Error()
-		}
+	case <-done:
 	case <-time.After(20 * time.Second):
 		return "", "" // harness horizon: not judged (never on a healthy tree)
 	}
@@ -654,6 +818,25 @@ func oneHandshake(clientComp, serverComp bool, sub string, size int) (key, what 
 	case res = <-resCh:
 	case <-time.After(20 * time.Second):
 		return "", ""
+	}
+	emu.Lock()
+	fk, fw := firstKey, firstWhat
+	emu.Unlock()
+	if fk == "client-read" {
+		// name the cause when the frames the server has put on the wire so far are already invalid
+		sf, _ := wsref.ParseAll(srvRec.bytes()[hsLenS:])
+		if _, e := wsref.SenderCheck(sf, false, negotiated); e != nil && !strings.Contains(e.Error(), "unfinished") {
+			return "server-wire", e.Error() + " (the client's read failed with: " + fw + ")"
+		}
+	}
+	if fk == "server" && strings.HasPrefix(fw, "server read") {
+		cf, _ := wsref.ParseAll(cliRec.bytes()[hsLenC:])
+		if _, e := wsref.SenderCheck(cf, true, negotiated); e != nil && !strings.Contains(e.Error(), "unfinished") {
+			return "client-wire", e.Error() + " (the " + fw + ")"
+		}
+	}
+	if fk != "" {
+		return fk, fw
 	}
 	if res.err != nil {
 		return "server", res.err.Error()
@@ -696,8 +879,8 @@ func oneHandshake(clientComp, serverComp bool, sub string, size int) (key, what 
 }
 
 func run(c *hl.Ctx) {
-	c.Rule("E2: for every configuration (sender role x {compression not negotiated, negotiated at levels -2/1/9 (thorough: all 12), negotiated but write-disabled} x write buffer {16,125,512,4096} x read buffer {128,4096}): every single message over sizes {0,1,125,126,W-1,W,W+1,2W,2(W+14),2(W+14)+1,65535,65536,65536+W} x {text,binary} x write API {WriteMessage, WriteString, ReadFrom, prepared, JSON, NextWriter with every 2-partition at the class boundaries, 1-byte partition}; every ordered pair (thorough: selected triples) of 11 branch-class messages; the sender's wire is parsed by an independent RFC 6455/7692 parser and the peer Conn reads the sequence back (ReadMessage and 1-byte NextReader reads alternating). Handshake sessions through Dialer.Dial/Upgrader.Upgrade over net.Pipe in all offer/enable/subprotocol combinations. state = dumped reader/writer state; transition = one message.")
-	c.Assume("mask keys are read from the wire, never predicted", "multi-megabyte messages are represented by 65536+W (thorough: 131072+W)", "the library never fragments below its buffer size, so partitions are chosen at buffer-relative boundaries")
+	c.Rule("E2: for every configuration (sender role x {compression not negotiated, negotiated with the library defaults, negotiated at levels -2/-1/0/1/9 (thorough: all 12) with write compression on and with EnableWriteCompression(false), negotiated but write-disabled} x write buffer {16,125,512,4096} x read buffer {128,4096}): every single message over sizes {0,1,125,126,W-1,W,W+1,2W,2(W+14),2(W+14)+1,65535,65536,65536+W} x {text,binary} x write API {WriteMessage, WriteString, ReadFrom, prepared, JSON, NextWriter with every 2-partition at the class boundaries, 1-byte partition}; every ordered pair (thorough: selected triples) of 11 branch-class messages; the sender's wire is parsed by an independent RFC 6455/7692 parser and the peer Conn reads the sequence back (ReadMessage and 1-byte NextReader reads alternating). Handshake sessions through Dialer.Dial/Upgrader.Upgrade over net.Pipe in all offer/enable/subprotocol combinations, and negotiated sessions x SetCompressionLevel(every level of the alphabet) on both ends x the server answering with {WriteMessage, NextWriter, prepared message}. Settings pairs: on one negotiated connection (client and server sender, W=16; thorough also 125) every ordered pair of messages over (SetCompressionLevel(level) x EnableWriteCompression(on/off) called just before the message) x 7 write APIs x sizes {0, 2(W+14)+1 (thorough: also W+1)}; RSV1 must not appear on a message written while write compression is off and every RSV1 message must inflate to the written payload. Shared prepared message: one PreparedMessage over sizes {0,1,125,126,4095,4096,4097,8221,65536} x {text,binary} written to connections A, B, A, B for every ordered pair of connection options (role x {not negotiated, negotiated defaults, negotiated x level x on/off}); each wire is parsed and read back. A case is non-trivial when all its messages were found on the wire by the independent parser and read back intact by the peer. state = dumped reader/writer state; transition = one message.")
+	c.Assume("compress/flate's reader (used by the independent parser to inflate RSV1 messages) is correct", "SetCompressionLevel/EnableWriteCompression are only called between messages, as their documentation says (subsequent messages)", "mask keys are read from the wire, never predicted", "multi-megabyte messages are represented by 65536+W (thorough: 131072+W)", "the library never fragments below its buffer size, so partitions are chosen at buffer-relative boundaries")
 	cfgs := configs(c.Thorough())
 	c.Info("configurations", len(cfgs))
 	idx := 0
@@ -720,7 +903,7 @@ func run(c *hl.Ctx) {
 	}
 	// depth 2 (and 3): all ordered pairs of branch-class messages
 	for _, cf := range cfgs {
-		if c.Quick() && (cf.RBuf != 128 || (cf.Comp == 1 && cf.Level != 1)) {
+		if c.Quick() && (cf.RBuf != 128 || cf.Comp == 4 || (cf.Comp == 1 && cf.Level != 1 && cf.Level != 0)) {
 			continue
 		}
 		cl := classMsgs(cf)
@@ -742,6 +925,8 @@ func run(c *hl.Ctx) {
 			}
 		}
 	}
+	settingsPairs(c)
+	preparedShared(c)
 	twoConnections(c)
 	handshakeSessions(c)
 }
@@ -751,12 +936,32 @@ func replay(c *hl.Ctx, raw json.RawMessage) {
 	if err := json.Unmarshal(raw, &cs); err != nil {
 		panic(err)
 	}
-	if cs.Part == "seq" {
-		runCase(c, cs.Cfg, cs.Msgs)
-		return
-	}
 	c.NShards = 1
-	handshakeSessions(c)
+	switch cs.Part {
+	case "seq":
+		runCase(c, cs.Cfg, cs.Msgs)
+	case "prepared-shared":
+		var pc PCase
+		if err := json.Unmarshal(raw, &pc); err != nil {
+			panic(err)
+		}
+		onePreparedShared(c, pc)
+	case "two-connections":
+		twoConnections(c)
+	default:
+		var hc HCase
+		if err := json.Unmarshal(raw, &hc); err != nil {
+			panic(err)
+		}
+		if hc.Level == nil {
+			l := levelUnset
+			hc.Level = &l
+		}
+		if hc.ServerAPI == "" {
+			hc.ServerAPI = "WriteMessage"
+		}
+		handshakeFamily(c, &hc)
+	}
 }
 
 func main() {
